@@ -7,6 +7,7 @@ import (
 	"go/format"
 	"go/parser"
 	"go/token"
+	"go/types"
 	"os"
 	"path/filepath"
 	"regexp"
@@ -157,6 +158,18 @@ func (s c10scn) filesN(onlyKept bool) pkgFiles {
 	}
 	fs := pkgFiles{}
 	defer func() {
+		if s.unfmt {
+			// what gofmt normalises besides spacing: the order of an import block and the
+			// spelling of number literals
+			// (two tiny packages of the scenario module: importing the standard library
+			// would make every run type-check it from source)
+			for n, src := range fs {
+				src = strings.Replace(src, "package m\n", "package m\n\nimport (\n\"example.com/m/zz\"\n\"example.com/m/aa\"\n)\n", 1)
+				fs[n] = src + "\nvar   _ = []float64{ zz.Z,aa.A,0XFF,1E3 }\n"
+			}
+			fs["zz/zz.go"] = "package zz\n\nconst Z = 1\n"
+			fs["aa/aa.go"] = "package aa\n\nconst A = 2\n"
+		}
 		if s.late {
 			for old, nw := range map[string]string{"a.go": "main.go", "b.go": "types.go", "c.go": "z.go"} {
 				if src, ok := fs[old]; ok {
@@ -201,6 +214,31 @@ func (s c10scn) filesN(onlyKept bool) pkgFiles {
 		fs["c.go"] = "package m\n\n" + s.fn("other", "deriveCompare", 1) + s.filler("tailc")
 	}
 	return fs
+}
+
+var (
+	c10LocalOnce sync.Once
+	c10Local     map[string]*types.Package
+)
+
+// c10LocalPkgs are the two tiny packages the unformatted scenario files import.
+func c10LocalPkgs() map[string]*types.Package {
+	c10LocalOnce.Do(func() {
+		c10Local = map[string]*types.Package{}
+		for path, src := range map[string]string{"example.com/m/zz": "package zz\n\nconst Z = 1\n", "example.com/m/aa": "package aa\n\nconst A = 2\n"} {
+			fset := token.NewFileSet()
+			f, err := parser.ParseFile(fset, "x.go", src, 0)
+			if err != nil {
+				fatalInfra("c10 local package: %v", err)
+			}
+			pkg, err := (&types.Config{}).Check(path, fset, []*ast.File{f}, nil)
+			if err != nil {
+				fatalInfra("c10 local package: %v", err)
+			}
+			c10Local[path] = pkg
+		}
+	})
+	return c10Local
 }
 
 func c10Scenarios() []c10scn {
@@ -415,7 +453,7 @@ func checkC10(tier string) {
 		if ren != sc.nRenames {
 			viol("unexpected-number-of-renames", fmt.Sprintf("%d call sites renamed, scenario has %d to rename", ren, sc.nRenames))
 		}
-		cp := typeCheckDir(dir, false, nil)
+		cp := typeCheckDir(dir, false, c10LocalPkgs())
 		if len(cp.Errors) > 0 {
 			viol("result-does-not-type-check", shortErrs(cp.Errors))
 		}
@@ -459,6 +497,10 @@ func checkC10(tier string) {
 			fs = append(fs, fscn{"syntax-error-before-conflict-in-one-file|" + nm[0], pkgFiles{nm[0]: "package m\n\n" + types + "func early() int { return 1 + }\n\n" + conflict}})
 			fs = append(fs, fscn{"conflict-and-syntax-error-in-another-file|" + nm[0] + "+" + nm[1], pkgFiles{nm[0]: "package m\n\n" + types + conflict, nm[1]: "package m\n" + syn}})
 		}
+		// the syntax error sits in an in-package _test.go file (parsed after the other files
+		// were type-checked), which also holds the call to rename; a call in a.go is still undefined
+		fs = append(fs, fscn{"conflict-and-syntax-error-in-a-test-file", pkgFiles{"a.go": "package m\n\n" + types + "func use0() bool { return deriveEqual(&T1{}, &T1{}) }\n", "b_test.go": "package m\n\nfunc useT() bool { return deriveEqual(&T2{}, &T2{}) }\n" + syn}})
+		fs = append(fs, fscn{"duplicate-and-syntax-error-in-a-test-file", pkgFiles{"a.go": "package m\n\n" + types + "func use0() bool { return deriveEqualA(&T1{}, &T1{}) }\n", "b_test.go": "package m\n\nfunc useT() bool { return deriveEqualB(&T1{}, &T1{}) }\n" + syn}})
 		flagSets := [][]string{{"-autoname"}, {"-dedup"}, {"-autoname", "-dedup"}}
 		parDo(len(fs)*len(flagSets)*2, func(i int) {
 			sc, flags, pregen := fs[i/(len(flagSets)*2)], flagSets[(i/2)%len(flagSets)], i%2 == 1
